@@ -1,7 +1,8 @@
 (* C20 - What `log tail` prints reassembles to each task's log, within its filters. *)
-From Coq Require Import List Arith NArith Bool.
-From MR Require Import Model.Reader Proofs.ReaderProof.
+From Coq Require Import List Arith NArith Bool String.
+From MR Require Import Lib.Bytes Lib.Val Model.Reader Model.Filter Proofs.ReaderProof Proofs.FilterProof.
 Import ListNotations.
+Open Scope string_scope.
 
 Definition C20_statement
   (mrun : (nat -> nat -> bool) -> list bool -> list (nat * ev) -> msys)
@@ -9,9 +10,9 @@ Definition C20_statement
   (* every interleaving of the tasks' flushes onto the shared connection is a sequence of header-tagged blocks;
      concatenating the blocks that carry task i's header gives exactly what reader i wrote to the stream ... *)
   (forall sink streams cs i r, nth_error (readers (mrun sink streams cs)) i = Some r ->
-     tail_of (mrun sink streams cs) i = concat (sent r)) /\
+     tail_of (mrun sink streams cs) i = List.concat (sent r)) /\
   (* ... which, while the listener stays up, is exactly the bytes handed to the compressor (the stored log) ... *)
-  (forall es, let s := reader (fun _ => true) true es in concat (sent s) = out s) /\
+  (forall es, let s := reader (fun _ => true) true es in List.concat (sent s) = out s) /\
   (* ... and a task the filters do not admit (no stream client attached) contributes no block at all *)
   (forall sink es, sent (reader sink false es) = []).
 
@@ -23,4 +24,33 @@ Proof.
   - intros sink es. apply unattached_silent.
 Qed.
 
+(* the filter clause in full: the attachment rule of the run (Model.Filter: is_log_allowed + include_stdout /
+   include_stderr) composed with the shared connection, for every filter, task list and interleaving *)
+Definition C20_filter_statement
+  (mrun : (nat -> nat -> bool) -> list bool -> list (nat * ev) -> msys)
+  (attach : option filt -> list task -> list bool) : Prop :=
+  forall f ts cs i t, nth_error ts i = Some t ->
+    let m := mrun (fun _ _ => true) (attach f ts) cs in
+    exists r, nth_error (readers m) i = Some r /\
+      (admitted_opt f t = true -> tail_of m i = out r) /\
+      (admitted_opt f t = false -> blocks_of m i = []).
+
+Theorem C20_filter_holds : forall kp tol, C20_filter_statement (mrun kp tol) attach.
+Proof. intros kp tol f ts cs i t. apply tail_within_filters. Qed.
+
+(* non-vacuity: a listener for stdout of command "build" only; task 0 = (stdout, t, build) is relayed in full,
+   task 1 = (stdout, t, lint) gets no block although it wrote and stored the same bytes *)
+Example C20_filter_nonvacuous :
+  let f := Some {| want_stdout := true; want_stderr := false; ftargets := []; fcommands := [bs "build"] |} in
+  let ts := [ {| is_stdout := true; ttarget := bs "t"; tcommand := bs "build" |};
+              {| is_stdout := true; ttarget := bs "t"; tcommand := bs "lint" |} ] in
+  let line := [104; 105; 10]%N in
+  let cs := [(0, Arrive line); (1, Arrive line); (1, Poll); (0, Poll); (1, Tick); (0, Tick); (0, Close); (1, Close);
+             (0, Poll); (1, Poll); (0, Poll); (1, Poll)] in
+  let m := mrun true true (fun _ _ => true) (attach f ts) cs in
+  attach f ts = [true; false] /\ tail_of m 0 = line /\ blocks_of m 1 = [] /\
+  option_map out (nth_error (readers m) 1) = Some line.
+Proof. vm_compute. repeat split. Qed.
+
 Print Assumptions C20_holds.
+Print Assumptions C20_filter_holds.
